@@ -653,12 +653,16 @@ class Circuit(Function):
                     gates_for_block.add(new_label)
             else:
                 if right_connect:
-                    self._gates[old_to_new_names[cur_gate.label]] = gate.Gate(
-                        label=old_to_new_names[cur_gate.label],
+                    connector_label = old_to_new_names[cur_gate.label]
+                    connector_operands = tuple(
+                        old_to_new_names[operand] for operand in cur_gate.operands
+                    )
+                    for operand in connector_operands:
+                        self._add_user(operand, connector_label)
+                    self._gates[connector_label] = gate.Gate(
+                        label=connector_label,
                         gate_type=cur_gate.gate_type,
-                        operands=tuple(
-                            old_to_new_names[operand] for operand in cur_gate.operands
-                        ),
+                        operands=connector_operands,
                     )
 
         self.set_outputs(
